@@ -1,54 +1,57 @@
-"""Campaign / trigger constants: validator enum lists, field-key limit, defaults, row-model
-field lists (campaigneventrowmodel.py, triggerrowmodel.py, campaignparser.py, triggers.py,
-common.py).  Literals only, read with `ast` (the field lists additionally by pydantic
-introspection, cross-checked against the AST)."""
-import ast
+"""Campaign / trigger constants: the code words the row validators accept, field-key limit, defaults,
+row-model field lists (campaigneventrowmodel.py, triggerrowmodel.py, campaignparser.py, campaigns.py,
+triggers.py, common.py).
 
-from ..extract_tables import _find_class, _find_func, _parse, lean_str, lean_str_list
+HOW IT READS (DESIGN §2.5a): RUNTIME VALUES and BEHAVIOUR only.
+* campaignRowFields / triggerRowFields: pydantic field lists (name, required).  ORDER EXACT — pydantic
+  validates in declaration order: a validator only sees the fields declared before it
+  (`validate_match_type` reads `values["type"]`) and the failing fields are reported in that order.
+* units / start modes / event types / trigger types / match types: each row model is instantiated with
+  one field set to a candidate word (string constants of the module, single letters, digits, "");
+  the word is accepted iff pydantic reports no error for THAT field.  The guard of the match-type rule
+  is the trigger type for which a wrong match type is refused.  Sets (`v not in […]`): SORTED.
+* field-key limit: longest key `generate_field_key` accepts.
+* constructor words: the event type for which a rendered `CampaignEvent` carries `base_language` / carries
+  `flow` (listed in this order: [message type, flow type]); the trigger type that needs a keyword and the
+  match type it gets when none is given.
+* campaign parser defaults: `CampaignParser(…, [row]).parse()` on rows with / without base_language and
+  delivery_hour — under which key the message text is filed (the row's base language → `none`, a fixed
+  key → `some key`), the default language, the default delivery hour.
+"""
+import string
+
+from .. import t1lib
+from ..extract_tables import _parse, lean_str, lean_str_list
+from .t15_limits import _accepts, length_limit
 
 
-def _not_in_list(func: ast.FunctionDef):
-    """the list literal of the (single) `x not in [...]` test inside a validator"""
-    found = []
-    for n in ast.walk(func):
-        if isinstance(n, ast.Compare) and len(n.ops) == 1 and isinstance(n.ops[0], ast.NotIn):
-            found.append(ast.literal_eval(n.comparators[0]))
-    assert len(found) == 1, (func.name, found)
-    assert all(isinstance(x, str) for x in found[0])
-    return found[0]
+def _words(rel: str) -> list[str]:
+    w = t1lib.str_constants(_parse(rel))
+    w += [c for c in list(string.ascii_letters) + list(string.digits) + [""] if c not in w]
+    return [x for x in w if len(x) <= 16]
 
 
-def _eq_consts(func: ast.FunctionDef, attr_or_key: str):
-    """string constants compared with `==` against `<something>.attr` / `<something>["key"]` / name"""
-    out = []
-    for n in ast.walk(func):
-        if isinstance(n, ast.Compare) and len(n.ops) == 1 and isinstance(n.ops[0], ast.Eq):
-            left, right = n.left, n.comparators[0]
-            name = None
-            if isinstance(left, ast.Attribute):
-                name = left.attr
-            elif isinstance(left, ast.Name):
-                name = left.id
-            elif isinstance(left, ast.Subscript) and isinstance(left.slice, ast.Constant):
-                name = left.slice.value
-            if name == attr_or_key and isinstance(right, ast.Constant) and isinstance(right.value, str):
-                out.append(right.value)
+def _field_ok(model, base: dict, field: str, word) -> bool:
+    """does `model(**base, field=word)` pass the validation of `field`?"""
+    from pydantic.v1 import ValidationError
+
+    try:
+        model(**{**base, field: word})
+    except ValidationError as e:
+        return all(err["loc"][0] != field for err in e.errors())
+    except KeyError:
+        return True      # a later validator tripped over a missing earlier field: not this field's verdict
+    return True
+
+
+def _accepted(model, base, field, words) -> list[str]:
+    out = sorted(w for w in words if _field_ok(model, base, field, w))
+    assert out and len(out) < len(words), (field, out)
     return out
 
 
-def _model_fields(rel: str, cls_name: str, module: str):
-    """[(field, required)] in declaration order — AST and pydantic must agree"""
-    cls = _find_class(_parse(rel), cls_name)
-    from_ast = []
-    for n in cls.body:
-        if isinstance(n, ast.AnnAssign) and isinstance(n.target, ast.Name):
-            from_ast.append((n.target.id, n.value is None))
-    import importlib
-
-    model = getattr(importlib.import_module(module), cls_name)
-    from_pyd = [(k, bool(f.required)) for k, f in model.__fields__.items()]
-    assert from_ast == from_pyd, (from_ast, from_pyd)
-    return from_ast
+def _model_fields(model):
+    return [(k, bool(f.required)) for k, f in model.__fields__.items()]
 
 
 def _lean_fields(fs) -> str:
@@ -56,93 +59,94 @@ def _lean_fields(fs) -> str:
 
 
 def tables() -> str:
-    cm = _find_class(_parse("parsers/creation/campaigneventrowmodel.py"), "CampaignEventRowModel")
-    units = _not_in_list(_find_func(cm, "validate_unit"))
-    start_modes = _not_in_list(_find_func(cm, "validate_start_mode"))
-    event_types = _not_in_list(_find_func(cm, "validate_event_type"))
+    cm_mod = t1lib.load("rpft.parsers.creation.campaigneventrowmodel")
+    tm_mod = t1lib.load("rpft.parsers.creation.triggerrowmodel")
+    CM, TM = cm_mod.CampaignEventRowModel, tm_mod.TriggerRowModel
+    cw = _words("parsers/creation/campaigneventrowmodel.py")
+    tw = _words("parsers/creation/triggerrowmodel.py")
+    cbase = {"offset": "1", "relative_to": "r"}
+    units = _accepted(CM, cbase, "unit", cw)
+    start_modes = _accepted(CM, cbase, "start_mode", cw)
+    event_types = _accepted(CM, cbase, "event_type", cw)
 
-    tm = _find_class(_parse("parsers/creation/triggerrowmodel.py"), "TriggerRowModel")
-    trig_types = _not_in_list(_find_func(tm, "validate_type"))
-    vm = _find_func(tm, "validate_match_type")
-    match_types = _not_in_list(vm)
-    (match_guard,) = _eq_consts(vm, "type")
+    tbase = {"keywords": ["k"], "flow": "f"}
+    trig_types = _accepted(TM, tbase, "type", tw)
+    bad = "~t1 no match type~"
+    guards = [t for t in trig_types if not _field_ok(TM, {**tbase, "type": t}, "match_type", bad)]
+    match_guard = t1lib.one(guards, "trigger types whose match_type is restricted")
+    match_types = _accepted(TM, {**tbase, "type": match_guard}, "match_type", tw)
 
-    # generate_field_key: `len(field_key) <= 36`
-    gk = _find_func(_parse("rapidpro/models/common.py"), "generate_field_key")
-    limits = [
-        n.comparators[0].value
-        for n in ast.walk(gk)
-        if isinstance(n, ast.Compare) and isinstance(n.ops[0], ast.LtE) and isinstance(n.comparators[0], ast.Constant)
-    ]
-    assert len(limits) == 1 and isinstance(limits[0], int), limits
+    common = t1lib.load("rpft.rapidpro.models.common")
+    from rpft.rapidpro.models.exceptions import RapidProActionError
 
-    # CampaignParser.parse: message = {"eng": row.message}; base_language = row.base_language or "eng";
-    # delivery_hour = -1
-    cp = _find_func(_find_class(_parse("parsers/creation/campaignparser.py"), "CampaignParser"), "parse")
-    msg_keys, langs, hours = [], [], []
+    key_limit = length_limit(_accepts(common.generate_field_key, RapidProActionError), "field key limit")
 
-    def int_consts(v):
-        """integer literals (incl. negated) in an expression, not looking inside calls"""
-        if isinstance(v, ast.Constant) and isinstance(v.value, int) and not isinstance(v.value, bool):
-            return [v.value]
-        if isinstance(v, ast.UnaryOp) and isinstance(v.op, ast.USub) and isinstance(v.operand, ast.Constant) and isinstance(v.operand.value, int):
-            return [-v.operand.value]
-        if isinstance(v, ast.IfExp):
-            return int_consts(v.body) + int_consts(v.orelse)
-        return []
+    # CampaignEvent: which event type carries the message language / the flow when rendered
+    camp = t1lib.load("rpft.rapidpro.models.campaigns")
+    msg_types, flow_types = [], []
+    for w in event_types:
+        ev = camp.CampaignEvent(1, units[0], w, -1, start_modes[0], relative_to_label="r", flow_name="f",
+                                message={"eng": "m"}, base_language="eng")
+        r = ev.render()
+        if "base_language" in r:
+            msg_types.append(w)
+        if "flow" in r:
+            flow_types.append(w)
+    ev_consts = [t1lib.one(msg_types, "message event type"), t1lib.one(flow_types, "flow event type")]
 
-    for n in ast.walk(cp):
-        if isinstance(n, ast.Assign) and len(n.targets) == 1 and isinstance(n.targets[0], ast.Name):
-            t, v = n.targets[0].id, n.value
-            if t == "message":
-                for d in ast.walk(v):
-                    if isinstance(d, ast.Dict):
-                        # a literal key, or the variable holding the event's base language
-                        msg_keys += [(ast.literal_eval(k) if isinstance(k, ast.Constant) else ("var", k.id)) for k in d.keys]
-            if t == "base_language":
-                for b in ast.walk(v):
-                    if isinstance(b, ast.BoolOp) and isinstance(b.op, ast.Or) and isinstance(b.values[-1], ast.Constant):
-                        langs.append(b.values[-1].value)
-            if t == "delivery_hour":
-                hours += int_consts(v)
-    assert len(msg_keys) == 1 and len(langs) == 1 and len(hours) == 1, (msg_keys, langs, hours)
-    assert isinstance(hours[0], int)
+    # Trigger: the type that needs a keyword, the match type it defaults to
+    trig = t1lib.load("rpft.rapidpro.models.triggers")
+    needs_kw = []
+    mk = lambda w, **kw: trig.Trigger(w, flow_name="f", group_names=[], group_uuids=[], **kw)  # noqa: E731
+    for w in trig_types:
+        try:
+            mk(w)
+        except ValueError:
+            mk(w, keywords=["k"])     # … and is fine with one
+            needs_kw.append(w)
+    trig_k = t1lib.one(needs_kw, "trigger types that need a keyword")
+    default_match = mk(trig_k, keywords=["k"]).match_type
+    assert isinstance(default_match, str)
 
-    # CampaignEvent.__init__: event_type == "M" / "F";  Trigger.__init__: trigger_type == "K", match_type = "F"
-    ce = _find_func(_find_class(_parse("rapidpro/models/campaigns.py"), "CampaignEvent"), "__init__")
-    ev_consts = _eq_consts(ce, "event_type")
-    tr = _find_func(_find_class(_parse("rapidpro/models/triggers.py"), "Trigger"), "__init__")
-    (trig_k,) = _eq_consts(tr, "trigger_type")
-    dm = [
-        n.value.value
-        for n in ast.walk(tr)
-        if isinstance(n, ast.Assign) and isinstance(n.targets[0], ast.Attribute) and n.targets[0].attr == "match_type"
-        and isinstance(n.value, ast.Constant) and isinstance(n.value.value, str)
-    ]
-    assert len(dm) == 1, dm
+    # CampaignParser.parse: message key, default language, default hour
+    cpm = t1lib.load("rpft.parsers.creation.campaignparser")
 
-    camp_fields = _model_fields("parsers/creation/campaigneventrowmodel.py", "CampaignEventRowModel",
-                                "rpft.parsers.creation.campaigneventrowmodel")
-    trig_fields = _model_fields("parsers/creation/triggerrowmodel.py", "TriggerRowModel",
-                                "rpft.parsers.creation.triggerrowmodel")
+    def event(**kw):
+        row = CM(offset="1", unit=units[0], event_type=ev_consts[0], relative_to="r", start_mode=start_modes[0],
+                 message="t1 text", **kw)
+        c = cpm.CampaignParser("t1 campaign", "t1 group", [row]).parse()
+        return t1lib.one(c.events, "events of a one-row campaign")
 
-    h = hours[0]
-    # none = keyed by the variable base_language; some k = a literal key
-    msg_key_lean = "none" if msg_keys[0] == ("var", "base_language") else f"some {lean_str(msg_keys[0])}"
+    e_default, e_lang = event(), event(base_language="t1l")
+    k_default = t1lib.one(e_default.message, "message keys")
+    k_lang = t1lib.one(e_lang.message, "message keys")
+    default_lang = e_default.base_language
+    assert isinstance(default_lang, str) and e_lang.base_language == "t1l"
+    if k_lang == "t1l" and k_default == default_lang:
+        msg_key_lean = "none"                       # keyed by the event's base language
+    else:
+        assert k_lang == k_default, (k_lang, k_default)
+        msg_key_lean = f"some {lean_str(k_default)}"
+    h = e_default.delivery_hour
+    assert isinstance(h, int) and event(delivery_hour="7").delivery_hour == 7
+
     return (
+        "-- sets (`v not in […]`): sorted\n"
         f"def campaignUnits : List (List Char) := {lean_str_list(units)}\n"
         f"def campaignStartModes : List (List Char) := {lean_str_list(start_modes)}\n"
         f"def campaignEventTypes : List (List Char) := {lean_str_list(event_types)}\n"
+        "-- [message event type, flow event type]\n"
         f"def campaignCtorEventTypes : List (List Char) := {lean_str_list(ev_consts)}\n"
         f"def triggerTypes : List (List Char) := {lean_str_list(trig_types)}\n"
         f"def triggerMatchTypes : List (List Char) := {lean_str_list(match_types)}\n"
         f"def triggerMatchGuard : List Char := {lean_str(match_guard)}\n"
         f"def triggerCtorKeyword : List Char := {lean_str(trig_k)}\n"
-        f"def triggerDefaultMatch : List Char := {lean_str(dm[0])}\n"
-        f"def fieldKeyMaxLen : Nat := {limits[0]}\n"
+        f"def triggerDefaultMatch : List Char := {lean_str(default_match)}\n"
+        f"def fieldKeyMaxLen : Nat := {key_limit}\n"
         f"def campaignMessageKey : Option (List Char) := {msg_key_lean}\n"
-        f"def campaignDefaultLang : List Char := {lean_str(langs[0])}\n"
+        f"def campaignDefaultLang : List Char := {lean_str(default_lang)}\n"
         f"def campaignDefaultHour : Int := {'-' + str(-h) if h < 0 else str(h)}\n"
-        f"def campaignRowFields : List (List Char × Bool) := {_lean_fields(camp_fields)}\n"
-        f"def triggerRowFields : List (List Char × Bool) := {_lean_fields(trig_fields)}\n"
+        "-- declaration order (exact): validators see the fields declared before them\n"
+        f"def campaignRowFields : List (List Char × Bool) := {_lean_fields(_model_fields(CM))}\n"
+        f"def triggerRowFields : List (List Char × Bool) := {_lean_fields(_model_fields(TM))}\n"
     )
